@@ -1,7 +1,9 @@
 (* Property C03 -- a reused fitter object gives the same answers as a fresh one.
    This file contains only the property theorems; each is closed by an exact lemma. *)
 From Coq Require Import ZArith List Bool Lia.
-From PB Require Import C03.Model C03.Model2D C03.Proofs C03.Proofs2D C03.Instance.
+From Coq Require Import String.
+From PB Require Import C03.Model C03.Model2D C03.Proofs C03.Proofs2D C03.Instance
+  C03.Table C03.Instantiate gen.GenC03 C03.TableProofs.
 Import ListNotations.
 Open Scope Z_scope.
 
@@ -82,6 +84,47 @@ Theorem C03_history_2d : forall (x0 z0 : option Z) (ops : list op2) (probe : op2
   snd (step2 (run2 ops (init2 x0 z0)) probe) = snd (step2 (fresh2 (run2 ops (init2 x0 z0))) probe).
 Proof. exact history2. Qed.
 Print Assumptions C03_history_2d.
+
+(* ---- the call table extracted from the CURRENT source (tools/gen_c03.py -> gen/GenC03.v) ----
+   C03_table_checked: every cache use of every registered 1-D / 2-D method is of a kind the state machines
+   model (a _setup_polynomial / _setup_spline / _setup_whittaker call whose key arguments are constants or the
+   method's own parameters, under at most one recognised guard; no write through self, no other attribute of
+   the cache objects, no direct call of another registered method; no 2-D method with require_unique_xz).
+   A method gaining a new kind of cache use is emitted as UUnknown and breaks this theorem. *)
+Theorem C03_table_checked : table_ok gen_methods = true.
+Proof. exact table_checked. Qed.
+Print Assumptions C03_table_checked.
+
+(* soundness of the check, for ANY table: every method found in a checked table is modelled, i.e.
+   instantiates (for all argument values) to an operation of the 1-D resp. 2-D machine *)
+Theorem C03_table_sound : forall t : list minfo, table_ok t = true ->
+  (forall name dim m, lookup t name dim = Some m -> minfo_ok m = true) /\
+  (forall name a m, lookup t name 1 = Some m -> inst t (IMethod name a) = Some (call_of m a)) /\
+  (forall name a m, lookup t name 2 = Some m -> inst2 t (IMethod2 name a) = Some (call_of2 m a)).
+Proof. intros t Ht. split; [exact (table_ok_sound t Ht)|split; [exact (inst_total_any t Ht)|exact (inst2_total_any t Ht)]]. Qed.
+Print Assumptions C03_table_sound.
+
+(* C03_history for histories given as (registered method name, argument values) through the generated table *)
+Theorem C03_history_table :
+  forall (O : XOps) (V P B : Type) (vander : X O -> bool -> Z -> V) (slice : V -> Z -> V)
+         (pinv : V -> P) (basis : X O -> Z -> Z -> B),
+    (forall (x : X O) (dm : bool) (p q : Z), 0 <= q <= p -> slice (vander x dm p) q = vander x dm q) ->
+    (forall n : Z, 0 <= n -> xsize O (linspace O n) = n) ->
+    (forall n : Z, xunique O (linspace O n) = true) ->
+    (forall n p : Z, 2 <= n -> vander (linspace O n) true p = vander (linspace O n) false p) ->
+    forall (x0 : option (X O)) (items : list item) (ops : list op) (pitem : item) (probe : op),
+      inst_all gen_methods items = Some ops -> Forall item_wf items -> inst gen_methods pitem = Some probe ->
+      obs O V P B vander slice pinv basis (run O ops (init O x0)) probe =
+      obs O V P B vander slice pinv basis (fresh O (run O ops (init O x0))) probe.
+Proof. exact history_table. Qed.
+Print Assumptions C03_history_table.
+
+(* an optimizer call (its own prologue, then the calls it delegates to methods of the same object, stopping
+   at the first raise) executes a prefix of its operation list: covered by the theorems over all lists *)
+Theorem C03_group_prefix : forall (ops : list op) (s : st XSym),
+  exists k, fst (step_group s ops) = run XSym (firstn k ops) s.
+Proof. exact step_group_prefix. Qed.
+Print Assumptions C03_group_prefix.
 
 (* non-vacuity: the contracts of C03_history are jointly satisfiable (lists of integers, repeated
    multiplication, firstn), giving a hypothesis-free instance of the theorem *)
